@@ -1,5 +1,6 @@
 import CJ.Drv.Loop
 import CJ.Drv.Covert
+import CJ.Drv.NetAddr
 /-! Driver for C06: the covert-admission model. -/
 open CJ.Drv
 
@@ -8,4 +9,6 @@ def main : IO Unit := runDriver fun
   | "csched" :: args => Covert.handleSched args
   | "creload" :: args => Covert.handleReload args
   | "cdialback" :: args => Covert.handleDialback args
+  | "netaddr" :: args => NetAddr.handle args
+  | "cadmit" :: args => NetAddr.handleAdmit args
   | _ => none
